@@ -70,9 +70,14 @@ mod proofs {
   /// A-stub: releasing a block (layout agreement) is proved per kind in kx/heap (O-20.1); here the release is a no-op
   fn drop_stub(_h: &mut ObjectHandle) {}
 
+  /// A-stub: per-kind tracing and the dispatch are proved in kx/trace (O-05.1/.2); boxes here hold numbers, so tracing the
+  /// payload of a box reaches no further object
+  fn no_children(_o: &laythe_core::ObjectRef) {}
+
   #[kani::proof]
   #[kani::unwind(4)]
   #[kani::stub(<ObjectHandle as std::ops::Drop>::drop, drop_stub)]
+  #[kani::stub(<laythe_core::ObjectRef as Trace>::trace, no_children)]
   fn o20_4_full_collection_exact() {
     let (exact, threshold, kept, intact) = collect_one_box(kani::any(), 9);
     assert!(exact, "after a full collection allocated() is the sum of the sizes of the retained objects");
@@ -84,6 +89,7 @@ mod proofs {
   #[kani::proof]
   #[kani::unwind(4)]
   #[kani::stub(<ObjectHandle as std::ops::Drop>::drop, drop_stub)]
+  #[kani::stub(<laythe_core::ObjectRef as Trace>::trace, no_children)]
   fn o20_4n_nursery_collection_exact() {
     let (exact, threshold, kept, intact) = collect_one_box(kani::any(), 0);
     assert!(exact, "after a nursery collection allocated() is the sum of the sizes of the retained objects");
@@ -95,10 +101,12 @@ mod proofs {
   #[kani::proof]
   #[kani::unwind(4)]
   #[kani::stub(<ObjectHandle as std::ops::Drop>::drop, drop_stub)]
+  #[kani::stub(<laythe_core::ObjectRef as Trace>::trace, no_children)]
   fn o05_4_marks_cleared() { assert!(collect_twice(0)); }
 
   #[kani::proof]
   #[kani::unwind(4)]
   #[kani::stub(<ObjectHandle as std::ops::Drop>::drop, drop_stub)]
+  #[kani::stub(<laythe_core::ObjectRef as Trace>::trace, no_children)]
   fn o05_4_temp_root_survives() { assert!(temp_root_survives(9)); }
 }
